@@ -52,8 +52,9 @@ TRUSTED_BASE = [
 ]
 ASSUMPTIONS = [
     "single thread; generators are interleaved in one thread",
-    "the pool's geometry avoids exact distance ties between text boxes (group_textboxes breaks ties by id(), "
-    "CPython heap addresses are outside the modelled state)",
+    "layout analysis and the content interpreter are parameters of the Lean theorems (abstract per-page result); on "
+    "the implementation they are covered by the fresh-process baselines (the pool contains exact distance ties "
+    "between text boxes: rotated pages with tight margins; the id()-based tie-break found there is fixed)",
     "the files under pdfminer/cmap and $CMAP_PATH do not change during the run (fresh load is a function of the name)",
     "LTPage.pageid is the ordinal of the page within one call (documented device counter) and is not part of the "
     "page result when pages are extracted one at a time",
